@@ -10,7 +10,10 @@ SignCertReq / MakeReq / SignReq / ReceptorNames / ReceptorVerifyFunc.
 import os, re
 import vlib, vtables
 
-WITNESSES = ["W_NoLongHeader", "W_NoFourByteHdr", "W_NoDuplicates", "W_NoExpired", "W_NoThreshold128", "W_NoDecodeError", "W_NoNewKey"]
+WITNESSES = ["W_NoLongHeader", "W_NoFourByteHdr", "W_NoDuplicates", "W_NoExpired", "W_NoThreshold128", "W_NoDecodeError", "W_NoNewKey",
+             "W_NoIssuedAfterVerifier", "W_NoExpiresLater"]
+# counter-example variants of the model and the invariant each must violate
+VARIANTS = {"LegacyStrip": "RoundTrip", "KF_TimeFrozenAtCreation": "ValidityJudgedAtVerification"}
 
 
 def run(tier, seed, replay=None):
@@ -20,13 +23,14 @@ def run(tier, seed, replay=None):
     cfg = "CertNames_quick.cfg" if tier == "quick" else "CertNames_full.cfg"
     r = vlib.tlc_must_pass("CertNames", cfg, wd, timeout=1800, workers=1)
     wit = vtables.witnesses_once("CertNames", "CertNames_quick.cfg", WITNESSES, wd)
-    # the DER sub-model must predict the defect class of a fixed 2-byte strip: RoundTrip fails with LegacyStrip = TRUE
-    legacy = open(os.path.join(vlib.SPECS, "CertNames_quick.cfg")).read().replace("LegacyStrip = FALSE", "LegacyStrip = TRUE")
-    legacy = re.sub(r'DumpFile\s*=\s*"[^"]*"', 'DumpFile = ""', legacy)
-    lr = vlib.tlc("CertNames", "CertNames_legacy.cfg", wd, workers=1, timeout=600, cfg_text=legacy)
-    if lr.violated != "RoundTrip":
-        raise vlib.Inconclusive("the model with LegacyStrip = TRUE does not violate RoundTrip (violated=%s)" % lr.violated)
-    wit.append("RoundTrip@LegacyStrip")
+    # the counter-example variants must be rejected by the model: the DER sub-model predicts the defect class of a fixed 2-byte strip
+    # (RoundTrip fails with LegacyStrip = TRUE), and a verifier that reads the clock when it is built fails ValidityJudgedAtVerification
+    vr = vlib.tlc("CertNames", "CertNames_variants.cfg", wd, workers=1, timeout=600, extra=["-continue"])
+    violated = set(re.findall(r"Invariant (\S+) is violated", vr.output))
+    for const, inv in VARIANTS.items():
+        if inv not in violated:
+            raise vlib.Inconclusive("the model with %s = TRUE does not violate %s (violated: %s)" % (const, inv, sorted(violated)))
+        wit.append("%s@%s" % (inv, const))
     vectors = os.path.join(r.dir, "vectors.ndjson")
     recs = vlib.read_ndjson(vectors)
     if len(recs) != r.distinct:
@@ -42,18 +46,23 @@ def run(tier, seed, replay=None):
     if replay:
         inst = 8
     cli_every = 2 if (tier == "quick" and not replay) else 1
-    res = vlib.harness_json(vt, ["certs", "-vectors", vectors, "-seed", str(seed), "-instances", str(inst), "-cli-every", str(cli_every)],
+    res = vlib.harness_json(vt, ["certs", "-vectors", vectors, "-seed", str(seed), "-instances", str(inst), "-cli-every", str(cli_every),
+                                 "-clock-step", "2s" if tier == "quick" else "4s"],
                             wd, timeout=3000)
     if res.get("inconclusive"):
         raise vlib.Inconclusive("; ".join(res["inconclusive"][:5]))
     c = res["counters"]
-    done = sum(c.get("vectors_" + f, 0) for f in ("ids", "names", "san", "decode"))
+    nclock = sum(1 for x in recs if x["fam"] == "clock")
+    if c.get("vectors_clock", 0) < (3 * nclock) // 4:
+        raise vlib.Inconclusive("only %d of %d time-line vectors could be run within their ticks" % (c.get("vectors_clock", 0), nclock))
+    done = sum(c.get("vectors_" + f, 0) for f in ("ids", "names", "san", "decode", "clock", "clock_not_judged"))
     if done != len(recs):
         raise vlib.Inconclusive("harness evaluated %d of %d vectors" % (done, len(recs)))
     for viol in res["violations"]:
         v.violation(viol["sig"], viol["what"], viol["replay"])
     if not replay and not res["violations"]:
-        for k in ("certificates_made", "cli_certificates_made", "verify_accept_expected", "der_sizes_checked", "decode_errors_expected"):
+        for k in ("certificates_made", "cli_certificates_made", "verify_accept_expected", "der_sizes_checked", "decode_errors_expected",
+                  "clock_issued_after_verifier_accept_expected", "clock_refuse_outside_window_expected"):
             if c.get(k, 0) == 0:
                 raise vlib.Inconclusive("vacuous run: counter %s is zero" % k)
     cov = {
@@ -63,10 +72,12 @@ def run(tier, seed, replay=None):
                 "GetReqNames -> SignCertReq -> x509 parse -> ReceptorNames -> ReceptorVerifyFunc for every candidate id (each requested id, prefix, extension, "
                 "case variant, neighbouring length, empty, DNS name, CN), and (every %s vector) once through MakeReq/SignReq on files; the SAN bytes are re-read by an independent "
                 "DER decoder and their sizes compared with the model; 'decode' vectors feed ReceptorNames with SANs made by an independent encoder. "
-                "distinct = distinct concrete requests (ids, DNS, IPs, key mode, window) plus decode vectors" % (cfg, lens, inst, "2nd" if cli_every == 2 else "single"),
+                "'clock' vectors run in real time: verifiers built at one tick, the certificate issued by the tooling at the same or a later tick (default, short and "
+                "late windows) and verified at every later tick. distinct = distinct concrete requests (ids, DNS, IPs, key mode, window) plus decode and clock vectors" % (cfg, lens, inst, "2nd" if cli_every == 2 else "single"),
         "samples": res["samples"][:12], "exhaustive": False,
         "states": r.distinct, "transitions": r.generated,
-        "vectors": len(recs), "vectors_by_family": {f: c.get("vectors_" + f, 0) for f in ("ids", "names", "san", "decode")},
+        "vectors": len(recs), "vectors_by_family": {f: c.get("vectors_" + f, 0) for f in ("ids", "names", "san", "decode", "clock")},
+        "clock": {k[6:]: n for k, n in c.items() if k.startswith("clock_")},
         "id_byte_lengths": lens, "instances_per_vector": inst,
         "requests_made": c.get("requests_made", 0), "certificates_made": c.get("certificates_made", 0),
         "cli_certificates_made": c.get("cli_certificates_made", 0), "verify_calls": c.get("verify_calls", 0),
@@ -80,4 +91,5 @@ def run(tier, seed, replay=None):
         "IP addresses are compared with net.IP.Equal (an IPv4-mapped request is the same address as its 4-byte form)",
         "Go crypto/x509 parsing and chain verification are trusted; 'new key' requests use 1024-bit keys to keep key generation cheap",
         "names are compared as multisets; validity windows to the second",
+        "time-line family: real time passes (ticks of 2 s quick / 4 s thorough, window bounds half a tick from the tick instants); an operation not completed within 0.8 s (1.6 s) of its tick is not judged",
     ])
